@@ -21,7 +21,7 @@ def SideFs (fs : Fields) : Prop := SchemaOKFs fs ∧ coveredFs fs = true
 theorem side_prim (o : TraceOpts) (p : Prim) : Side (primDT o p) := by
   cases p with
   | int t => cases t <;> simp [Side, primDT, intDT, SchemaOK, covered]
-  | str =>
+  | str | strRef | cowStr =>
     simp only [Side, primDT, strDT]
     split <;> split <;> simp [SchemaOK, covered, Build.isIntDT, isStrDT]
   | _ => simp [Side, primDT, SchemaOK, covered]
@@ -162,6 +162,17 @@ end
 
 /-! ### the value side -/
 
+/-- the sequence form of a byte slice (`&[u8]` without serde_bytes): no raw streams, every `u8` in range -/
+theorem noRaws_u8Seq : ∀ b : List UInt8, noRaws (u8Seq b) = true
+  | [] => rfl
+  | _ :: r => by simp [u8Seq, noRaws, noRaw, noRaws_u8Seq r]
+
+theorem svalsOK_u8Seq : ∀ b : List UInt8, SValsOK (u8Seq b)
+  | [] => by simp [u8Seq, SValsOK]
+  | x :: r => by
+    have h2 : ((x.toNat : Nat) : Int) ≤ 255 := by have := x.toNat_lt; omega
+    simp [u8Seq, SValsOK, SValOK, ScalarOK, IntTy.inRange, IntTy.min, IntTy.max, h2, svalsOK_u8Seq r]
+
 mutual
 theorem ser_ok : ∀ (t : Ty) (v : Val), wt t v = true → noRaw (ser t v) = true ∧ SValOK (ser t v)
   | t, .bool b, hw => by
@@ -190,7 +201,7 @@ theorem ser_ok : ∀ (t : Ty) (v : Val), wt t v = true → noRaw (ser t v) = tru
     | _ => simp [wt] at hw
   | t, .bytes x, hw => by
     cases t with
-    | prim p => cases p <;> simp [wt, Prim.wt] at hw <;> simp [ser, noRaw, SValOK]
+    | prim p => cases p <;> simp [wt, Prim.wt] at hw <;> simp [ser, noRaw, SValOK, noRaws_u8Seq, svalsOK_u8Seq]
     | _ => simp [wt] at hw
   | t, .unit, hw => by
     cases t with
